@@ -28,10 +28,10 @@ DROPPED = -77777
 CODEBASE = 1000000000
 
 TIERS = {
-    "quick": dict(MaxGenTables=2, MaxGenRows=3, MaxTheta=2, OmegaKinds='"d2", "b2", "b2d1"', SigmaKinds='"d1", "b2"',
+    "quick": dict(MaxGenTables=2, MaxGenRows=3, MaxTabItems=3, MaxTheta=2, OmegaKinds='"d2", "b2", "b2d1"', SigmaKinds='"d1", "b2"',
                   FixPats='"none", "th1", "om", "omblk1", "sg"', MaxSteps=2,
                   RowSets='"full", "nocov", "abort", "nm72", "covabort"', IterSets='"0-5-10", "0"', AllPhi="FALSE", AllIters="FALSE"),
-    "thorough": dict(MaxGenTables=3, MaxGenRows=3, MaxTheta=4, OmegaKinds='"d1", "d2", "b2", "b2d1", "d1b2"', SigmaKinds='"d1", "d2", "b2"',
+    "thorough": dict(MaxGenTables=3, MaxGenRows=3, MaxTabItems=4, MaxTheta=4, OmegaKinds='"d1", "d2", "b2", "b2d1", "d1b2"', SigmaKinds='"d1", "d2", "b2"',
                      FixPats='"none", "th1", "thlast", "om", "omblk1", "sg"', MaxSteps=2,
                      RowSets='"full", "nocov", "abort", "nm72", "covabort"', IterSets='"0-5-10", "0"', AllPhi="FALSE", AllIters="TRUE"),
 }
@@ -39,7 +39,7 @@ TIERS = {
 
 def _cfg(path, c):
     path.write_text(
-        "CONSTANTS\n  Modes = {\"gen\", \"run\"}\n"
+        "CONSTANTS\n  Modes = {\"gen\", \"tab\", \"run\"}\n"
         + "".join(f"  {k} = {{{v}}}\n" if k in ("OmegaKinds", "SigmaKinds", "FixPats", "RowSets", "IterSets") else f"  {k} = {v}\n" for k, v in c.items())
         + "INIT Init\nNEXT Next\nINVARIANT AutomatonIsReference\nINVARIANT CovDominant\nINVARIANT CovTwoWays\nINVARIANT PhiTriOK\nINVARIANT Emit\nCHECK_DEADLOCK FALSE\n"
     )
@@ -189,7 +189,10 @@ def model_code(run):
         code.append("$ESTIMATION METHOD=1 INTER MAXEVAL=9999" if tab["no"] == 1 else "$ESTIMATION METHOD=IMP INTER NITER=5")
     if 1 in run["ext"][-1]["codes"]:
         code.append("$COVARIANCE")
-    if "sdtab" in run:
+    if "tabrec" in run:
+        t = run["tabrec"]
+        code.append("$TABLE " + " ".join(t["listed"]) + (" NOAPPEND" if t["noappend"] else "") + " NOPRINT ONEHEADER FILE=sdtab1")
+    elif "sdtab" in run:
         code.append("$TABLE ID PRED RES NOAPPEND NOPRINT FILE=sdtab1")
     return "\n".join(code) + "\n"
 
@@ -282,6 +285,34 @@ def check_gen(case, d):
                 want(close(got, v), "value", f"table {tab['no']} row {r + 1} {c} = {got!r}, written {v}")
         want(tf.table_no(tab["no"]) is t, "table_no", "table_no() does not find the table")
     return len(case["tabs"])
+
+
+def check_tab(case, d):
+    """$TABLE column layout: the values pharmpy reports under a label are the values written under that label"""
+    from pharmpy.tools.external.nonmem.results import parse_modelfit_results
+
+    tab = case["tab"]
+    run = dict(case["base"], tabrec={"listed": tab["listed"], "noappend": tab["noappend"]})
+    run.pop("sdtab", None)
+    write_ext(d / "run1.ext", run)
+    write_phi(d / "run1.phi", run)
+    write_lst(d / "run1.lst", run)
+    (d / "run1.mod").write_text(model_code(run))
+    write_gen(d / "sdtab1", [{"no": 1, "rows": tab["rows"], "rep": []}], tab["layout"])
+    res = parse_modelfit_results(get_model(run), d / "run1.mod")
+    want(res is not None, "no_results", "parse_modelfit_results returned None")
+    for attr, labels in (("predictions", ("PRED", "IPRED")), ("residuals", ("RES", "WRES", "CWRES"))):
+        exp = [l for l in labels if l in tab["layout"]]
+        df = getattr(res, attr)
+        if not exp:
+            want(df is None or len(df.columns) == 0, attr + "_unexpected", f"{attr} {None if df is None else list(df.columns)} reported, the table has none of {labels}")
+            continue
+        want(df is not None and sorted(df.columns) == sorted(exp), attr + "_columns",
+             f"{attr} columns {None if df is None else list(df.columns)} != {exp} (table layout {tab['layout']})")
+        want(len(df) == len(tab["rows"]), attr + "_rows", f"{len(df)} {attr} rows, {len(tab['rows'])} records written")
+        for l in exp:
+            for r, v in enumerate(tab["bylabel"][l]):
+                want(close(df[l].iloc[r], v), attr, f"{l} of record {r + 1} = {df[l].iloc[r]!r}, the column labelled {l} has {v} ($TABLE {' '.join(tab['listed'])}{' NOAPPEND' if tab['noappend'] else ''}; file columns {tab['layout']})")
 
 
 def check_ext_tables(run, path):
@@ -549,12 +580,16 @@ def run_case(arg):
     if kind == "RUN":
         last = case["ext"][-1]
         record.update(cfg=case["cfg"], steps=len(case["ext"]), last_rowset=last["rowset"], rowsets=[t["rowset"] for t in case["ext"]],
-                      phikind=case["phikind"], zero=case["zero"])
+                      phikind=case["phikind"], zero=case["zero"], zeta=case["zeta"])
     aux = 0
     try:
         if kind == "GEN":
             record["stage"] = "table_file"
             check_gen(case, d)
+        elif kind == "TAB":
+            record["stage"] = "table_columns"
+            record.update(noappend=case["tab"]["noappend"], listed=case["tab"]["listed"])
+            check_tab(case, d)
         elif kind == "JSONP":
             record["stage"] = "json"
             record["small"] = case["exp"] >= 3
@@ -636,13 +671,15 @@ def main(tier: str, seed: int) -> int:
         core.tlc_stats_into(v, res)
     finally:
         shutil.rmtree(d, ignore_errors=True)
+    tabs = [c for tag, c in res.prints if tag == "TAB"]
     gens = [c for tag, c in res.prints if tag == "GEN"]
     runs = [c for tag, c in res.prints if tag == "RUN"]
     res.out, res.prints = "", []
     # vacuity: every kind of line / special row / outcome class must occur
     rowsets = {t["rowset"] for r in runs for t in r["ext"]}
     if not gens or not runs or rowsets != {"full", "nocov", "abort", "nm72", "covabort"} or not any(t["rep"] for g in gens for t in g["tabs"]) \
-            or not any(len(r["ext"]) > 1 for r in runs) or not any(any(r["runfixed"]) for r in runs) or {r["phikind"] for r in runs} != {"ETA", "PHI"}:
+            or not any(len(r["ext"]) > 1 for r in runs) or not any(any(r["runfixed"]) for r in runs) or {r["phikind"] for r in runs} != {"ETA", "PHI"} or not any(r["zeta"] for r in runs) \
+            or not any(t["noappend"] for t in tabs) or not any(not t["noappend"] and "DV" in t["listed"] for t in tabs):
         raise core.MachineryError(f"NMTable.tla emitted a vacuous case set: {len(gens)} table files, {len(runs)} runs, row sets {rowsets}")
     core.use_repo()
     import pharmpy.modeling  # noqa: F401
@@ -650,6 +687,8 @@ def main(tier: str, seed: int) -> int:
 
     rng = random.Random(seed)
     n_emitted = len(runs)
+    base = min((r for r in runs if len(r["ext"]) == 1 and r["ext"][0]["rowset"] == "nocov"),
+               key=lambda r: (r["phikind"] != "ETA", json.dumps(r["cfg"], sort_keys=True)))
     if tier == "quick":
         # every class (parameter configuration x special rows of the last step) once, the member
         # chosen by VERIF_SEED, plus every (phi variant x iterations x first-step rows) combination and a random rest
@@ -657,7 +696,7 @@ def main(tier: str, seed: int) -> int:
         picked, seen = [], set()
         for r in runs:
             keys = [("cfg", json.dumps(r["cfg"], sort_keys=True), r["ext"][-1]["rowset"]),
-                    ("phi", r["phikind"], r["zero"], r["ext"][-1]["rowset"], r["cfg"]["om"]),
+                    ("phi", r["phikind"], r["zero"], r["zeta"], r["ext"][-1]["rowset"], r["cfg"]["om"]),
                     ("steps", tuple(t["rowset"] for t in r["ext"]), tuple(r["ext"][0]["iters"]))]
             if any(k not in seen for k in keys):
                 seen.update(keys)
@@ -668,9 +707,18 @@ def main(tier: str, seed: int) -> int:
     for r in runs:  # the $TABLE file of the run directory is one of TLC's single-table files
         r["sdtab"] = rng.choice(singles)
     work = [("GEN", c, rng.randrange(1 << 30)) for c in gens] + [("RUN", c, rng.randrange(1 << 30)) for c in runs]
-    for _, c, _ in work:
+    # $TABLE layouts: read through a fixed small run directory (one step, no covariance step)
+    n_tabs = len(tabs)
+    if tier == "quick":  # every layout with <= 2 listed items, a seeded sample of the longer ones
+        rng.shuffle(tabs)
+        short = [t for t in tabs if len(t["listed"]) <= 4]
+        tabs = short + [t for t in tabs if len(t["listed"]) > 4][:40]
+    work += [("TAB", {"tab": t, "base": base}, 0) for t in tabs]
+    for k, c, _ in work:
         if "cfg" in c:
             get_model(c)  # parse each distinct control stream once, in the parent
+        elif k == "TAB":
+            get_model(dict(c["base"], tabrec={"listed": c["tab"]["listed"], "noappend": c["tab"]["noappend"]}))
     work += [("JSONP", {"num": n, "den": 7, "exp": e}, 0) for n in (1, 3) for e in (0, 1, 3, 6, 9)]
     rng.shuffle(work)
     results = core.pmap(run_case, work, procs=16, chunk=16)
@@ -681,6 +729,8 @@ def main(tier: str, seed: int) -> int:
             v.violation(record, what)
     v.add_coverage(
         table_files=len(gens),
+        table_layouts=len(tabs),
+        table_layouts_enumerated_by_tlc=n_tabs,
         run_directories=len(runs),
         run_directories_enumerated_by_tlc=n_emitted,
         distinct_control_streams=len(_MODELS),
@@ -693,7 +743,7 @@ def main(tier: str, seed: int) -> int:
         "thorough: all are rendered and read back; quick: all table files, and of the run directories one member (chosen by VERIF_SEED) of every class "
         "parameter configuration x special rows of the last step, of every phi variant x omega kind x last rows, of every row-set sequence x iteration set, plus 60 random ones",
         samples=[{"cfg": r["cfg"], "rowsets": [t["rowset"] for t in r["ext"]], "final_last": r["ext"][-1]["final"]["vals"]} for r in runs[:2]] + [gens[len(gens) // 2]],
-        exhaustive=len(runs) == n_emitted,
+        exhaustive=len(runs) == n_emitted and len(tabs) == n_tabs,
     )
     return v.finish(min_traces=200)
 
